@@ -349,6 +349,10 @@ def confirm(res, pid, harness, fn, spec, ret, oracle, oracles, key, what, timeou
         res.viol(key, what + ' :: ' + detail[:300], path)
         return True
     res.notes.append(f'ENCODING-SUSPECT: candidate for {key} did not reproduce natively: {detail[:200]}')
+    try:
+        rec['observed'] = 'NOT REPRODUCED: ' + detail; os.makedirs(os.path.join(VERIF, 'replays', pid), exist_ok=True)
+        json.dump(rec, open(os.path.join(VERIF, 'replays', pid, 'suspect-' + hashlib.sha1(json.dumps(rec['args'], default=str).encode()).hexdigest()[:12] + '.json'), 'w'), default=str)
+    except Exception: pass
     if suspect_is_inconclusive: res.inc(f'candidate counterexample for {key} did not reproduce natively ({detail[:200]})')
     return False
 
